@@ -314,7 +314,9 @@ func (w *World) Pos(at ssa.Instruction) string {
 		}
 	}
 	file := p.Filename
-	if i := strings.Index(file, "/repo/"); i >= 0 {
+	if strings.HasPrefix(file, load.RepoDir+"/") {
+		file = file[len(load.RepoDir)+1:]
+	} else if i := strings.Index(file, "/repo/"); i >= 0 {
 		file = file[i+6:]
 	}
 	return fmt.Sprintf("%s:%d (%s)", file, p.Line, shortName(fn))
